@@ -3,7 +3,7 @@
     implementation's outcome / messages / post-state as literals; [check_step] runs the model's
     [step] from the *implementation's* pre-state and compares, component by component.  The
     per-property projections of DESIGN.md §4.2 are unions of these components (tools/props.py). *)
-From FM Require Export World Totals Reentry.
+From FM Require Export World Totals Reentry ReentryDeep.
 
 (** ** Observations *)
 Record cfgT := mkCfg {
@@ -242,6 +242,10 @@ Definition check_rstep (c : cfgT) (pre : obs) (o : op) (prog : list op) (ok_o : 
            (nested_o : option (list bool)) (post : obs) : N :=
   check_step_with (fun w => rstep w o prog) c pre ok_o msgs_o post
   + bit 21 (negb (nested_eqb (rstep_nested (abs c pre) o prog) nested_o)).
+
+(** The same for a transaction given as a tree (model/ReentryDeep.v): nested calls that are themselves re-entered. *)
+Definition check_tstep (c : cfgT) (pre : obs) (t : rop) (ok_o : bool) (msgs_o : list out_msg) (post : obs) : N :=
+  check_step_with (fun w => tstep w t) c pre ok_o msgs_o post.
 
 (** ** Queries *)
 Definition res_eqb {A} (eqb : A -> A -> bool) (a b : result A) : bool :=
